@@ -45,6 +45,18 @@ def report(res, verbose=False, partial=False):
         print(f'UNDECIDED: obligation {e["name"]} ({e.get("clause")}): solver returned unknown [{e.get("case", "")}]')
     for e, k in known_hits:
         print(f'KNOWN-FINDING: property={pid} {k.get("what", e["name"])}')
+    bounded_viol = []
+    for b in res.get('bounded', []):
+        print(f'[{pid}] bounded stand-in `{b["name"]}` ({b["bound"]}): {b["cases"]} cases, '
+              f'{len(b["disagreements"])} disagreements (bounded: not counted as proved)')
+        if b['rc'] not in (0, 1) or b['cases'] is None:
+            print(f'CRASH: bounded stand-in {b["name"]}: rc={b["rc"]} {b["stderr"][-300:]}')
+            res['crashes'].append(dict(key=b['name'], error=b['stderr']))
+        elif b['disagreements']:
+            bounded_viol.append(b)
+            d0 = b['disagreements'][0]
+            print(f'VIOLATION property={pid} replay={b["result_file"]}')
+            print(f'   bounded stand-in {b["name"]}: input {d0.get("text")!r} expected {d0.get("expected")} observed {d0.get("observed")}')
     for e in violations:
         replay, suffix = make_replay(pid, e)
         print(f'VIOLATION property={pid} replay={replay}{suffix}')
@@ -75,6 +87,10 @@ def report(res, verbose=False, partial=False):
                explanation=('every obligation is generated from the current source text of /repo by pyvc and '
                             'discharged by z3 (cvc5 for z3-unknowns); counts are distinct named obligations, '
                             'each possibly checked on several paths'))
+    cov['bounded_standins'] = [dict(name=b['name'], covers=b['what'], reason=b['why'], bound=b['bound'], cases=b['cases'],
+                                    nontrivial_cases=b['nontrivial'], disagreements=len(b['disagreements']),
+                                    tool='/venv/bin/python ' + b['result_file'].rsplit('/', 1)[0], time_s=round(b['time'], 2))
+                               for b in res.get('bounded', [])]
     if 'audit' in res:
         cov['audit_sites'] = res['audit']['sites']
         cov['audit_inferred_sets'] = res['audit']['inferred']
@@ -83,7 +99,7 @@ def report(res, verbose=False, partial=False):
                               'discharged pyvc obligation proving the enclosing function independent of the enumeration order; '
                               + cov['explanation'])
     ev = dict(property_id=pid, tier=res['tier'], seed=res['seed'], level=level, coverage=cov,
-              assumptions=trusted, wall_s=round(res['wall'], 2), violations=len(violations))
+              assumptions=trusted, wall_s=round(res['wall'], 2), violations=len(violations) + len(bounded_viol))
     if not partial:
         os.makedirs(os.path.join(VERIF, 'evidence'), exist_ok=True)
         with open(os.path.join(VERIF, 'evidence', f'{pid}.json'), 'w') as f:
@@ -91,7 +107,7 @@ def report(res, verbose=False, partial=False):
     # ---- exit status ------------------------------------------------------------------------------
     if res['crashes']:
         return R.EXIT_CRASH
-    if violations:
+    if violations or bounded_viol:
         return R.EXIT_VIOLATION
     if n_ob == 0:
         print('no obligations generated: refusing to report success')
